@@ -284,6 +284,12 @@ class AbsMachine:
         if isinstance(op, (ast.NotEq, ast.IsNot)):
             r = sym_eq(a, b)
             return None if r is None else not r
+        if isinstance(op, (ast.In, ast.NotIn)) and isinstance(b, (tuple, list, frozenset, set)):
+            res = [sym_eq(a, x) for x in b]
+            r = True if any(x is True for x in res) else (None if any(x is None for x in res) else False)
+            if r is None:
+                return None
+            return r if isinstance(op, ast.In) else not r
         if isinstance(a, SymInt) and isinstance(b, SymInt) and a.base == b.base and a.mod is None and b.mod is None:
             a, b = a.off, b.off  # same unbounded symbolic base: ordering of the offsets
         if any(x is UNKNOWN or isinstance(x, (Sym, SymInt, _Unred, Obj, B.BitRec, B.SymBits)) for x in (a, b)):
